@@ -39,12 +39,15 @@ SlotsOf(lang) == (Common \ (IF lang = "rust" THEN {"defaultParam", "classAttr"} 
 \* to stay below the tool's "constants-definition file" heuristic (10+ UPPER_CASE constants) constant slots
 \* carry only three values
 FewValues(slot) == slot \in {"upperConst", "annUpperConst", "constItem", "staticItem", "enumMember", "enumDiscriminant"}
+ScopedConst(slot) == slot \in {"classUpperConst", "localUpperConst"}          \* four values each
 OneValue(slot) == slot \in {"upperCallArg", "upperFuncBody"}
 Items(lang) == {<<s, v>> : s \in SlotsOf(lang), v \in {w \in Values : ValueOk(lang, w)}} \ 
-               {<<s, v>> \in (SlotsOf(lang) \X Values) : (FewValues(s) /\ v \notin {2, 3, 4}) \/ (OneValue(s) /\ v # 2)}
+               {<<s, v>> \in (SlotsOf(lang) \X Values) : (FewValues(s) /\ v \notin {2, 3, 4}) \/ (OneValue(s) /\ v # 2)
+                                                      \/ (ScopedConst(s) /\ v \notin {2, 3, 4, 9})}
 
 ExemptSlot(slot, v, maxSmall) ==
-    \/ slot \in {"upperConst", "annUpperConst", "constItem", "staticItem", "enumMember", "testFn"}
+    \/ slot \in {"upperConst", "annUpperConst", "constItem", "staticItem", "enumMember", "testFn",
+                 "classUpperConst", "localUpperConst"}
     \/ (slot = "strRepeat" /\ v \notin {4, 7})              \* integer repetition of a string literal
     \/ (slot \in {"rangeArg", "enumerateArg"} /\ IsSmallInt(v, maxSmall))
 Mult(slot) == IF slot = "twoOnLine" THEN 2 ELSE 1
